@@ -75,7 +75,7 @@ class Check(PropertyCheck):
         quick = self.tier == "quick"
         plains = [enclib.gen_plain(self.rng, 3000) for _ in range(60 if quick else 600)] + [b"", b"a"]
         v, n1 = self.roundtrip(plains, [1, 9] if quick else list(range(1, 10)), [False, True])
-        big = enclib.big_plains(self.rng, quick)
+        big = enclib.big_plains(self.rng, quick) + enclib.boundary_plains(self.rng, 1, 24 if quick else 200)
         v2, n2 = self.roundtrip(big, [1] if quick else [1, 2, 9], [False, True])
         self.notes.append("process-level round trips: %d small, %d large" % (n1, n2))
         return v + v2
